@@ -217,7 +217,7 @@ func TestCheck(t *testing.T) {
 		ws[i] = &walker{r: r, ms: move.NewStore(), lc: ev.NewLocal()}
 	}
 	corpus := gen.Corpus()
-	roots := r.N(5000, 40000)
+	roots := r.N(5000, 80000)
 	ev.Parallel(roots, func(wk, i int) {
 		w := ws[wk]
 		rng := r.RNG("c03-tree", i)
@@ -252,7 +252,7 @@ func TestCheck(t *testing.T) {
 		}
 		r.Merge(w.lc)
 	})
-	lines := r.N(15000, 150000)
+	lines := r.N(15000, 300000)
 	ev.Parallel(lines, func(wk, i int) {
 		w := ws[wk]
 		rng := r.RNG("c03-line", i)
@@ -271,7 +271,7 @@ func TestCheck(t *testing.T) {
 		r.Merge(w.lc)
 	})
 	// the in-situ hook also watches perft's make/undo pairs
-	np := r.N(200, 1500)
+	np := r.N(200, 3000)
 	ev.Parallel(np, func(wk, i int) {
 		rng := r.RNG("c03-perft", i)
 		p := gen.AnyPos(rng)
